@@ -416,6 +416,8 @@ def dispatch(it, body, st, t, fn, args, depth):
         if v[0] == "struct":
             return ret(st, TUPLE([v[2]["sign"], v[2]["data"]]))
 
+    if path.endswith("TryFromBigIntError::<T>::new") or (name == "new" and "TryFromBigIntError" in path):
+        return ret(st, STRUCT("TryFromBigIntError", {"original": args[0]}))
     # ---- scalar helpers
     if name == "wrapping_neg" and args and args[0][0] == "int":
         return ret(st, INT(-args[0][1], args[0][2]))
